@@ -686,6 +686,101 @@ def read_source_tables(repo):
     return out
 
 
+def _function_body(repo, rel, start, ends):
+    src = open(os.path.join(repo, rel)).read().splitlines()
+    out, on = [], False
+    for l in src:
+        if not on and re.match(start, l):
+            on = True
+            continue
+        if on and any(re.match(e, l) for e in ends):
+            break
+        if on:
+            out.append(l)
+    if not on:
+        raise ValueError("%s: function not found (%s)" % (rel, start))
+    return out
+
+
+_SAMPLE_SOURCES = [
+    (r"^self\._plasma\.get_electron_distribution\(\)\.density\(", 1),
+    (r"^self\._plasma\.get_electron_distribution\(\)\.effective_temperature\(", 2),
+    (r"^self\._target_species\.distribution\.density\(", 3),
+    (r"^self\._line_rad_species\.distribution\.density\(", 5),
+    (r"^self\._recom_species\.distribution\.density\(", 6),
+    (r"^hyd_species\.distribution\.density\(", 7),
+    (r"^species\.distribution\.effective_temperature\(", 9),
+]
+
+
+def read_guards(repo):
+    """Fail-closed translator: the guard structure of the five emission() functions and of BremsFunction.evaluate as
+    lists of (quantity, operator, action) in the order of the code (codes: coq/Model/C03_Guards.v).  Which quantity is
+    sampled from which distribution, which one is tested with which operator, and what the test does.  Any `if` that is
+    not of a known form, any test on a variable that is not a sampled quantity, raises ValueError."""
+    tables = []
+    for name in ("impact_excitation", "recombination", "thermal_cx", "total_radiated_power", "bremsstrahlung"):
+        rel = "cherab/core/model/plasma/%s.pyx" % name
+        lines = [re.sub(r"#.*$", "", l).strip() for l in
+                 _function_body(repo, rel, r"\s*cpdef Spectrum emission\(", [r"\s*cdef int _populate_cache", r"\s*def "])]
+        lines = [l for l in lines if l]
+        var, ev = {}, []
+        for i, l in enumerate(lines):
+            m = re.match(r"^([\w.\[\]]+)\s*(\+?=)\s*(.+)$", l)
+            if m and (".density(" in m.group(3) or ".effective_temperature(" in m.group(3)):
+                rhs, q = m.group(3), None
+                for pat, code in _SAMPLE_SOURCES:
+                    if re.match(pat, rhs):
+                        q = code
+                if q is None and re.match(r"^species\.distribution\.density\(", rhs):
+                    q = 4 if name == "thermal_cx" else 8 if name == "bremsstrahlung" else None
+                if q is None:
+                    raise ValueError("%s: unknown sampled quantity: %s" % (rel, l))
+                var[m.group(1)] = q
+                ev.append((q, 0, 0))
+                continue
+            m = re.match(r"^(?:if|elif)\s+(.+):$", l)
+            if not m:
+                if re.match(r"^(while|else)\b", l):
+                    raise ValueError("%s: unexpected control flow: %s" % (rel, l))
+                continue
+            cond = m.group(1).strip()
+            nxt = lines[i + 1] if i + 1 < len(lines) else ""
+            g = re.match(r"^(\w+)\s*<=\s*0(?:\.0)?$", cond)
+            if g:
+                if g.group(1) not in var:
+                    raise ValueError("%s: test on something that is not a sampled quantity: %s" % (rel, l))
+                act = 1 if nxt == "return spectrum" else 2 if nxt == "continue" else None
+                if act is None:
+                    raise ValueError("%s: a `<= 0` test that neither returns the spectrum nor continues: %s / %s" % (rel, l, nxt))
+                ev.append((var[g.group(1)], 1, act))
+                continue
+            if re.match(r"^self\._[\w.]+ is None$", cond) or cond == "not self._cache_loaded":
+                continue
+            g = re.match(r"^self\._(plt|prb|prc)_rate and (\w+) > 0(?: and (\w+) > 0)?$", cond)
+            if g:
+                act = {"plt": 3, "prb": 4, "prc": 5}[g.group(1)]
+                for v in (g.group(2), g.group(3)):
+                    if v is None:
+                        continue
+                    if v not in var:
+                        raise ValueError("%s: test on something that is not a sampled quantity: %s" % (rel, l))
+                    ev.append((var[v], 2, act))
+                continue
+            if cond == "species.charge > 0":
+                ev.append((10, 2, 6))
+                continue
+            raise ValueError("%s: `if` of unknown form: %s" % (rel, l))
+        tables.append(ev)
+    lines = [re.sub(r"#.*$", "", l).strip() for l in
+             _function_body(repo, "cherab/core/model/plasma/bremsstrahlung.pyx", r"\s*cdef double evaluate\(self, double wvl\)", [r"^cdef class ", r"^# todo"])]
+    ifs = [l for l in lines if re.match(r"^(if|elif|else|while)\b", l)]
+    if ifs != ["if ni > 0:"] or "ni = self.species_density_mv[i]" not in lines:
+        raise ValueError("bremsstrahlung.pyx: BremsFunction.evaluate guard structure changed: %s" % ifs)
+    tables.append([(8, 2, 6)])
+    return tables
+
+
 def probe_gq_defaults():
     """the integrator a Bremsstrahlung model gets when none is given (behavioural probe)"""
     g = Bremsstrahlung().integrator
